@@ -107,6 +107,14 @@ impl<'de> serde::Deserialize<'de> for DS {
     }
 }
 type RD = Registry!(DS, DT);
+/// a registry whose FIRST component is absent from the table under test (bits 0b110)
+pub struct DX(u8);
+impl<'de> serde::Deserialize<'de> for DX {
+    fn deserialize<D: Deserializer<'de>>(d: D) -> Result<Self, D::Error> {
+        Ok(DX(d.deserialize_u64(U64Visitor)? as u8))
+    }
+}
+type RX = Registry!(DX, DS, DT);
 
 // ------------------------------------------------------------------ nondeterministic deserializer
 static mut CALLS: usize = 0;
@@ -256,6 +264,35 @@ macro_rules! by_row {
 // under Miri (zero-capacity Vec raw parts are dangling pointers, which CBMC's object model mishandles here).
 // The check was wrong, not the code: harness removed (DESIGN section 8.4).
 by_column!(deser_arch_by_column_len1, 1);
+
+/// column-wise, table {DS, DT} of registry (DX, DS, DT): the partial-column cleanup must walk the
+/// built columns alongside the identifier bits (a leading clear bit consumes no column)
+#[kani::proof]
+#[kani::unwind(6)]
+#[kani::stub(alloc::fmt::format, stub_format)]
+#[kani::stub(core::any::type_name, stub_type_name)]
+fn deser_arch_by_column_leading_component_absent() {
+    unsafe { NO_NONE_AT = [1 + 3 * 1, 2 + 4 * 1, usize::MAX, usize::MAX] };
+    let seed = DeserializeColumns::<RX> {
+        lifetime: PhantomData,
+        identifier: unsafe { Identifier::<RX>::new(vec![0b110]) },
+        length: 1,
+    };
+    match seed.deserialize(NDe) {
+        Ok(a) => {
+            assert!(a.length == 1 && a.components.len() == 2);
+            let col_t = a.components[1].0 as *const DT;
+            unsafe { assert!(LEDGER[(*col_t).id] == 1, "C11/C05: second built column holds the tracked component") };
+            drop(a);
+            let mut i = 0;
+            while i < unsafe { NEXT } {
+                assert!(unsafe { LEDGER[i] } == 2, "C04: dropping the deserialized table drops each value once");
+                i += 1;
+            }
+        }
+        Err(_) => {}
+    }
+}
 by_column!(deser_arch_by_column_len2, 2);
 by_row!(deser_arch_by_row_len0, 0);
 by_row!(deser_arch_by_row_len1, 1);
